@@ -474,8 +474,17 @@ def build_via_reassign(spec, inplace=False):
     from regions import PixCoord
     cls = spec['cls']
     if cls == 'compound':
-        import operator
-        r = build(spec)
+        # built from *other* operands, used (membership, box, mask), then both operands replaced
+        before = dict(spec)
+        before['r1'] = _scaled(spec['r1'], 1.3, 1.75) if spec['r1']['cls'] != 'compound' else spec['r1']
+        before['r2'] = _scaled(spec['r2'], 0.8, -2.25) if spec['r2']['cls'] != 'compound' else spec['r2']
+        r = build(before)
+        probe = PixCoord(np.array([0.0, 1.5]), np.array([0.25, -2.0]))
+        for use in (lambda: r.contains(probe), lambda: r.bounding_box, lambda: r.to_mask('center')):
+            try:
+                use()
+            except Exception:
+                pass
         r.region1 = build_via_reassign(spec['r1'], inplace)
         r.region2 = build_via_reassign(spec['r2'], inplace)
         return r
